@@ -310,3 +310,22 @@ pub fn factor_columns(nz_mask: &[bool]) -> (Vec<Vec<usize>>, Vec<usize>) {
     let cols = (0..L.n).map(|j| L.rowval[L.colptr[j]..L.colptr[j + 1]].to_vec()).collect();
     (cols, ordering)
 }
+
+// ---------------------------------------------------------------------------
+// observation of the clique-graph strategy: how often `traverse` leaves its fast path
+// (maximum-weight edge not permissible -> scan of the remaining edges through
+// `index_to_coord`), and how often that happens after clique 0 has been merged away
+// ---------------------------------------------------------------------------
+use std::sync::atomic::{AtomicUsize, Ordering};
+static TRAVERSE_FALLBACK: AtomicUsize = AtomicUsize::new(0);
+static TRAVERSE_FALLBACK_C0_DEAD: AtomicUsize = AtomicUsize::new(0);
+pub(crate) fn note_traverse_fallback(clique0_dead: bool) {
+    TRAVERSE_FALLBACK.fetch_add(1, Ordering::Relaxed);
+    if clique0_dead {
+        TRAVERSE_FALLBACK_C0_DEAD.fetch_add(1, Ordering::Relaxed);
+    }
+}
+/// (fallback scans, of which with clique 0 already merged away) since the last call; resets
+pub fn take_traverse_fallback_counts() -> (usize, usize) {
+    (TRAVERSE_FALLBACK.swap(0, Ordering::Relaxed), TRAVERSE_FALLBACK_C0_DEAD.swap(0, Ordering::Relaxed))
+}
